@@ -52,6 +52,8 @@ def main(argv=None):
     shutil.rmtree(workroot, ignore_errors=True)
     os.makedirs(workroot, exist_ok=True)
 
+    if not a.replay:
+        shutil.rmtree(os.path.join(env.VERIF, 'replays', prop), ignore_errors=True)
     if a.replay:
         with open(a.replay) as f:
             rep = json.load(f)
@@ -107,7 +109,7 @@ def main(argv=None):
         rdir = os.path.join(env.VERIF, 'replays', prop)
         os.makedirs(rdir, exist_ok=True)
         seen = set()
-        for v in r.violations[:20]:
+        for v in r.violations[:8]:
             h = khash(v['case'])
             if h in seen:
                 continue
@@ -117,8 +119,8 @@ def main(argv=None):
                 json.dump({'property': prop, 'tier': tier, 'seed': seed, 'violation': v, 'env': v.get('_env')}, f,
                           indent=1, default=str)
             print(f'VIOLATION property={prop} replay={os.path.relpath(p, env.VERIF)}')
-            print(f'#   monitor={v["monitor"]} observed={json.dumps(v["observed"], default=str)[:200]} '
-                  f'expected={json.dumps(v["expected"], default=str)[:200]}')
+            print(f'#   monitor={v["monitor"]} case={json.dumps(v["case"], default=str)[:160]} '
+                  f'observed={json.dumps(v["observed"], default=str)[:140]} expected={json.dumps(v["expected"], default=str)[:140]}')
         return 1
     if r.inconclusive:
         for reason in r.inconclusive[:5]:
